@@ -39,6 +39,8 @@ def configs(tier, seed=0):
         out.append({'key': 'poisson1d/d%d' % dim, 'kind': 'poisson', 'dim': dim, 'abstract_forward': True})
         out.append({'key': 'abel1d/d%d' % dim, 'kind': 'abel', 'dim': dim})
     out.append({'key': 'wangcubic', 'kind': 'wang'})
+    for tag, dv, ns in [('data0', 0, 0.7), ('data0.0', 0.0, 1.0), ('data-neg', -2.0, 0.5), ('default', None, 1.0)]:
+        out.append({'key': 'wangcubic/%s' % tag, 'kind': 'wang', 'data': dv, 'noise_std': ns, 'has_data': True})
     # even PSF sizes (size parity), 2D
     for size in [2, 4]:
         for bc in (['zero', 'periodic', 'mirror'] if tier == 'quick' else ['zero', 'periodic', 'neumann', 'mirror', 'nearest']):
@@ -335,7 +337,11 @@ def run(cfg, c):
         common_consistency(c, cfg, TP, lambda yex: sigma, x)
         return
     if kind == 'wang':
-        TP = T.WangCubic(noise_std=0.7, data=1.5)
+        ns = cfg.get('noise_std', 0.7)
+        dv = cfg['data'] if cfg.get('has_data') else 1.5
+        TP = T.WangCubic(noise_std=ns, data=dv) if dv is not None else T.WangCubic(noise_std=ns)
+        c.prove('the data handed out is the observation given (documented default 1)', bool(np.allclose(np.asarray(TP.data, dtype=float).ravel(), [1.0 if dv is None else float(dv)])),
+                info=fk(cfg, 'data'))
         x = cm.boxed(c, c.reals('x', 2), 4)
         out = np.asarray(TP.model.forward(x), dtype=dt).ravel()
         cubic = 10 * x[1] - 10 * x[0] ** 3 + 5 * x[0] ** 2 + 6 * x[0]
@@ -347,6 +353,6 @@ def run(cfg, c):
         else:
             ref = core.gradient_of(c, d[0] * cubic, list(x))
         c.prove_close('Jacobian of the cubic', g, np.array(ref, dtype=dt), info=fk(cfg, 'jacobian'))
-        common_consistency(c, cfg, TP, lambda yex: 0.7, x)
+        common_consistency(c, cfg, TP, lambda yex: ns, x)
         return
     raise ValueError(kind)
